@@ -25,7 +25,7 @@ func init() {
 			`R03.8 both series loops consult ShouldSave inside the loop, request and pop a reader checkpoint on that edge, and offer the popped checkpoint; ` +
 			`R03.9 every path from reading a SyncOp / bsdiff Control to SaveConsumer.Save passes the application of that message (a checkpoint never sits between consuming a message and writing its bytes). ` +
 			`R03.3 also demands that every other field of an entry writer that has a Flush method (a bufio.Writer between Write and the file) is flushed, error checked, before the Sync in Save. ` +
-			`NOT decided: that the four layers agree at every interruption point, content equality after resume, savior's decompressor checkpoints.`,
+			`R03.10 the slices the overlay bowl's Save stores in its checkpoint are the bowl's own lists or complete copies of them; R01.9 (shared) entry writers hand every byte on. NOT decided: that the four layers agree at every interruption point, content equality after resume, savior's decompressor checkpoints.`,
 		Assumptions: []string{"checkpoint types are those reachable from patcher.Checkpoint inside the module plus the payload types stored into BowlCheckpoint.Data / WriterCheckpoint.Data"},
 		Run:         runC03,
 	})
@@ -569,6 +569,8 @@ func runC03(c *core.Ctx) {
 	}
 
 	ruleWorkListDedup(c)
+	ruleSavedListsAreWhole(c)
+	ruleEntryWritersWriteEverything(c)
 
 	// ---- R03.7
 	registered := map[string]bool{}
@@ -704,4 +706,97 @@ func ruleWorkListDedup(c *core.Ctx) {
 		c.Floor("R03.6", "appends to overlay bowl work lists", nApp, 1)
 	}
 
+}
+
+// ruleSavedListsAreWhole is R03.10: what Commit does is decided by the bowl's work lists as a whole - an entry
+// "file A stays A" is what makes a duplicate of A a copy instead of a move. The slices a bowl's Save puts in
+// its checkpoint are therefore the bowl's own lists (or complete copies of them): not a selection.
+func ruleSavedListsAreWhole(c *core.Ctx) {
+	c.Rule("R03.10", "a bowl checkpoint holds the work lists whole")
+	save := c.P.Fn("pwr/bowl", "overlayBowl.Save")
+	if save == nil {
+		c.Missing("R03.10", "pwr/bowl.(*overlayBowl).Save", "not found")
+		return
+	}
+	isBowlList := func(v ssa.Value) (string, bool) {
+		ld, ok := core.StripConv(v).(*ssa.UnOp)
+		if !ok || ld.Op != token.MUL {
+			return "", false
+		}
+		b, n, ok := core.FieldOf(ld.X)
+		if !ok || !strings.HasSuffix(core.TypeName(b.Type()), "bowl.overlayBowl") {
+			return "", false
+		}
+		return n, true
+	}
+	n := 0
+	core.Instrs(save, func(in ssa.Instruction) {
+		st, ok := in.(*ssa.Store)
+		if !ok {
+			return
+		}
+		b, fname, ok := core.FieldOf(st.Addr)
+		if !ok || !strings.HasSuffix(core.TypeName(b.Type()), "bowl.OverlayBowlCheckpoint") {
+			return
+		}
+		if _, isSlice := st.Val.Type().Underlying().(*types.Slice); !isSlice {
+			return
+		}
+		n++
+		whole := true
+		why := ""
+		for _, o := range core.Origins(st.Val) {
+			if _, ok := isBowlList(o); ok {
+				continue
+			}
+			if k, isC := o.(*ssa.Const); isC && k.IsNil() {
+				continue // the empty start of a copy
+			}
+			if cl, ok := o.(*ssa.Call); ok {
+				if bi, ok := cl.Call.Value.(*ssa.Builtin); ok && bi.Name() == "append" && len(cl.Call.Args) == 2 {
+					// append(x, list...): the whole list at once
+					if _, ok := isBowlList(cl.Call.Args[1]); ok {
+						continue
+					}
+					// append(x, elem) in a loop over the list: on every way round the loop
+					if core.FindPath(save, cl, isInstr(cl), nil) != nil {
+						// the loop header: the block whose test exits the loop; every cyclic path through it passes the append
+						unconditional := true
+						for _, blk := range save.Blocks {
+							if len(blk.Instrs) == 0 {
+								continue
+							}
+							ifi, ok := blk.Instrs[len(blk.Instrs)-1].(*ssa.If)
+							if !ok || !blk.Dominates(cl.Block()) {
+								continue
+							}
+							if core.FindPath(save, ifi, isInstr(ifi), nil) == nil {
+								continue // not in the loop
+							}
+							if blk == cl.Block() {
+								continue
+							}
+							// a branch inside the loop body that can go round without appending
+							if strings.HasPrefix(blk.Comment, "rangeindex.loop") || strings.HasPrefix(blk.Comment, "for.loop") || strings.HasPrefix(blk.Comment, "rangeiter.loop") {
+								if core.FindPath(save, ifi, isInstr(ifi), isInstr(cl)) != nil {
+									unconditional = false
+								}
+							}
+						}
+						if unconditional {
+							continue
+						}
+						why = "appended to under a condition"
+					}
+				}
+			}
+			whole = false
+			if why == "" {
+				why = "built from " + core.Describe(o)
+			}
+		}
+		c.Check(whole, "R03.10", core.FnName(save), "checkpointed "+fname+" is the bowl's whole list", core.InstrPos(in),
+			"the bowl's own slice, or a copy made of all its elements", "the list saved as "+fname+" is a selection of the bowl's list ("+why+"): a bowl restored from the checkpoint plans its commit without the entries left out (without 'A stays A' a duplicate of A is made by moving A away)")
+	})
+	c.Floor("R03.10", "slices stored into the overlay bowl's checkpoint", n, 3)
 }
